@@ -63,7 +63,7 @@ func (e *Engine) Apply(op *Op) error {
 	e.Stats.Ops++
 	switch op.K {
 	// ------------------------------------------------------------ arrays
-	case "app", "ins", "set", "rem", "get", "pop", "appN", "remN", "badget", "badset", "badins", "badrem":
+	case "app", "ins", "set", "rem", "get", "pop", "appN", "remN", "grow", "badget", "badset", "badins", "badrem":
 		n := e.pick(op.T, false, true)
 		if n == nil {
 			e.Stats.Skipped++
@@ -75,7 +75,7 @@ func (e *Engine) Apply(op *Op) error {
 		e.noteTarget(n)
 		return e.withIsolation(n, func() error { return e.arrayOp(n, op) })
 	// ------------------------------------------------------------ maps
-	case "mset", "mget", "mhas", "mrem", "mpop", "msetN", "mremN", "mbadget", "mbadrem", "mbadhas":
+	case "mset", "mget", "mhas", "mrem", "mpop", "msetN", "mremN", "mgrow", "mbadget", "mbadrem", "mbadhas":
 		n := e.pick(op.T, true, false)
 		if n == nil {
 			e.Stats.Skipped++
@@ -224,6 +224,28 @@ func (e *Engine) arrayOp(n *Node, op *Op) error {
 			e.adopt(n, m)
 		}
 		e.rec("appN %d ok", op.N)
+		return nil
+
+	case "grow":
+		// append enough medium-sized elements to add about 8..63 leaves (reaches index slabs with
+		// >= 32 children and a third tree level at every slab size)
+		leaves := 8 + int(op.P%56)
+		el := e.strLen(1, 0, 0, e.MaxArrElem) + 2
+		total := leaves * int(e.Cfg.Slab) / el
+		if total > 8000 {
+			total = 8000
+		}
+		for i := 0; i < total; i++ {
+			v, m, err := e.mk(&VD{K: "s", Z: 1, N: op.P + uint64(i)}, n.Addr, e.MaxArrElem, 9)
+			if err != nil {
+				return err
+			}
+			if err := a.Append(v); err != nil {
+				return e.viol("bulk append %d/%d failed: %v", i, total, err)
+			}
+			n.Elems = append(n.Elems, m)
+		}
+		e.Stats.label("grow")
 		return nil
 
 	case "set":
@@ -440,6 +462,21 @@ func (e *Engine) mapOp(n *Node, op *Op) error {
 				return err
 			}
 		}
+		return nil
+
+	case "mgrow":
+		leaves := 8 + int(op.P%56)
+		total := leaves * int(e.Cfg.Slab) / 24
+		if total > 6000 {
+			total = 6000
+		}
+		for i := 0; i < total; i++ {
+			km := U64(1_000_000 + (op.P%1000)*100_000 + uint64(i))
+			if err := e.mapSet(n, km, &VD{K: "u", N: uint64(i)}, false); err != nil {
+				return err
+			}
+		}
+		e.Stats.label("grow")
 		return nil
 
 	case "mget", "mhas":
